@@ -38,16 +38,21 @@ func Generate(seed uint64, n int, tier, corpusDir string, shard int, out *kit.Ou
 		}
 		out.Emit(c)
 	}
-	configs := []struct {
-		puts    int
-		readers []int
-	}{{2, []int{2}}, {2, []int{2, 2}}, {1, []int{1, 1}}, {3, []int{1, 2}}, {2, []int{1, 1, 1}}}
+	configs := []schedCase{
+		{Init: 0, Prog: []string{"put:1", "put:2"}, Readers: [][]string{{"get", "get"}}},
+		{Init: 0, Prog: []string{"put:1", "put:2"}, Readers: [][]string{{"get", "get"}, {"get", "get"}}},
+		{Init: -1, Prog: []string{"ins:1"}, Readers: [][]string{{"ttlget"}, {"ttlget", "get"}}},
+		{Init: -1, Prog: []string{"ins:1", "put:2"}, Readers: [][]string{{"ttlget", "ttlget"}, {"get"}}},
+		{Init: -1, Prog: []string{"put:1"}, Readers: [][]string{{"get"}, {"ttlget"}, {"get", "ttlget"}}},
+		{Init: 0, Prog: []string{"put:1", "put:2", "put:3"}, Readers: [][]string{{"ttlget"}, {"get", "get"}}},
+		{Init: 5, Prog: []string{"put:6"}, Readers: [][]string{{"ttlget", "get"}, {"get"}, {"ttlget"}}},
+	}
 	for i := 0; i < n-nSeq; i++ {
 		cr := r.Fork()
-		cfg := configs[i%len(configs)]
-		sc := &schedCase{Kind: "sched", Puts: cfg.puts, Readers: cfg.readers}
-		sc.Sched = genSchedule(cr, cfg.puts, cfg.readers)
-		c, err := runSched(sc)
+		sc := configs[i%len(configs)]
+		sc.Kind = "sched"
+		sc.Sched = genSchedule(cr, &sc)
+		c, err := runSched(&sc)
 		if err != nil {
 			return err
 		}
